@@ -692,6 +692,7 @@ def run(chk):
     _markspill_rule(chk, prog)
     _hookstep_rule(chk, prog)
     _reentrybudget_rule(chk, prog, cg, comps)
+    _unstep_rule(chk, prog)
 
 
 def _freshbudget_rule(chk, prog, cg):
@@ -1083,3 +1084,51 @@ def _reentrybudget_rule(chk, prog, cg, comps):
                           "(%s): the callee can start %s again with a full budget, so nested activations multiply the limits and the "
                           "native stack overflows before any guard fires" % (fn.name, strip_casts(steps[0].kids[0]).text(), via, fn.name))
     chk.floor(rule, 2, n)
+
+
+def _unstep_rule(chk, prog):
+    """A routine that steps its depth counter down on entry and up on exit has used one unit of budget while it runs.
+    If it steps the counter back up just before it calls itself (`a grammar only opens a scope, it should not cost a
+    level`), that nesting is free: a tower of such forms recurses without any limit although every step is balanced."""
+    rule = "C19-UNSTEP"
+    chk.rule(rule, "a depth-guarded routine calls itself only with its own unit of budget still taken (the counter is not stepped back before the recursive call)")
+    n = 0
+    for fn in prog.all_funcs():
+        if fn.name == "peg_rule":
+            continue
+        steps = {}
+        for x in fn.nodes:
+            if x.k == "un" and x.op in ("post--", "pre--", "post++", "pre++"):
+                t = strip_casts(x.kids[0])
+                if (t.k == "mem" and t.field in ("depth", "recursion_guard")) or (t.k == "ref" and t.name == "depth"):
+                    steps.setdefault(t.text(), []).append(x)
+        rec = [c for c in fn.nodes if c.k == "call" and c.callee == fn.name]
+        for key, xs in sorted(steps.items()):
+            if not rec or not (any("--" in x.op for x in xs) and any("++" in x.op for x in xs)):
+                continue
+            # direction of the guard: the first step in the function body is the one that takes budget
+            order = {id(x): i for i, x in enumerate(fn.nodes)}
+            first = min(xs, key=lambda x: order[id(x)])
+            take = -1 if "--" in first.op else 1
+            ids = {id(x): (-1 if "--" in x.op else 1) for x in xs}
+
+            def transfer(st, x, ids=ids):
+                d = ids.get(id(x), 0)
+                if not d:
+                    return st
+                cur = [int(t[2:]) for t in st if t.startswith("n=")]
+                return frozenset(["n=%d" % max(-3, min(3, (cur[0] if cur else 0) + d))])
+            IN, OUT, T = flow.forward_paths(fn, frozenset(["n=0"]), transfer, cap=64)
+            for x, S in flow.states_at(fn, IN, T):
+                if x in rec:
+                    n += 1
+                    chk.instance(rule)
+                    chk.analysed(fn)
+                    vals = set(int(t[2:]) for ps in S for t in ps if t.startswith("n="))
+                    if vals and all(v * take >= 1 for v in vals):
+                        chk.ok(rule, "%s: recursive call with %s still stepped" % (fn.name, key))
+                    else:
+                        chk.violation(rule, fn.tu.name, fn.name, "free-recursion:" + key.replace(" ", ""), x.loc,
+                                      "`%s` is reached with `%s` stepped back to its value on entry: this nesting costs no budget, so "
+                                      "input that nests only through this path recurses until the native stack overflows" % (x.text()[:50], key))
+    chk.floor(rule, 1, n)
